@@ -14,7 +14,7 @@ TARGETS_CHECK = ["theories/Check/C04o.vo", "theories/Check/C04.vo"]
 TARGETS_PROP = ["theories/Properties/C04.vo"]
 SHARD = 300
 PRELUDE = "Open Scope string_scope.\n"
-RULE = ("8 fixed corner shapes + 44 (quick) / 600 (thorough) random struct shapes generated as Go source from VERIF_SEED (as C03); per "
+RULE = ("8 fixed corner shapes + 44 (quick) / 600 (thorough) random struct shapes + 4 fixed and 4 / 54 random homonym shapes generated as Go source from VERIF_SEED (as C03); per "
         "shape, built in generated typed Go source: up to 5 Join chains of depth 2-3 over struct-typed fields (plain and value-embedded), "
         "BiMap / Getter / Setter with the byte involution xor 0x5a on pointer-free fields, BiMapS/B/I/F on string / []byte / int / float "
         "fields, ForShape2..9 on random type tuples incl. a repeated component (by type and by name), Iso and Morphism over 1-5 isos "
